@@ -10,7 +10,9 @@ Chars == CASE FAMILY = "names"    -> {"a", "A", "_", "1", "+", ".", " ", "(", ",
            [] FAMILY = "comments" -> {"/", "*", "%", "\n", "a", " ", ".", "("}
            \* characters outside ASCII: a letter of each kind, a digit of another script (no digit for the token syntax), a space, a
            \* mathematical operator (graphic), a currency sign (no class at all)
-           [] FAMILY = "unicode"  -> {"a", "1", "é", "Ω", "日", "٣", " ", "∀", "€", "'", " ", "."}
+           \* (no character of U+0080..U+00FF in an ENUMERATED alphabet: when TLC's state queue spills to disk - the thorough tier - such a
+           \*  character comes back as U+FFxx; 2-byte characters are taken from U+0100 upwards)
+           [] FAMILY = "unicode"  -> {"a", "1", "ā", "Ω", "日", "٣", " ", "∀", "€", "'", " ", "."}
 VARIABLES txt, out, done
 Init == txt \in UNION { [1..k -> Chars] : k \in 0..NMAX } /\ out = <<>> /\ done = FALSE
 Next == ~done /\ done' = TRUE /\ out' = Lex(txt) /\ UNCHANGED txt
